@@ -137,6 +137,7 @@ type Backend struct {
 	openConns    atomic.Int64
 	idleMu       sync.Mutex
 	idle         map[net.Conn]struct{}
+	busy         map[net.Conn]string // what a connection inside an exchange is doing (diagnostics)
 	wg           sync.WaitGroup
 }
 
@@ -154,6 +155,32 @@ func (b *Backend) CloseIdle() {
 	b.idleMu.Lock()
 	for c := range b.idle {
 		c.Close()
+	}
+	b.idleMu.Unlock()
+}
+
+// OpenConnStates describes the connections that are inside an exchange (for leak reports).
+func (b *Backend) OpenConnStates() []string {
+	b.idleMu.Lock()
+	defer b.idleMu.Unlock()
+	var out []string
+	for c, st := range b.busy {
+		if _, idle := b.idle[c]; !idle {
+			out = append(out, c.RemoteAddr().String()+" "+st)
+		}
+	}
+	return out
+}
+
+func (b *Backend) setBusy(c net.Conn, what string) {
+	b.idleMu.Lock()
+	if b.busy == nil {
+		b.busy = map[net.Conn]string{}
+	}
+	if what == "" {
+		delete(b.busy, c)
+	} else {
+		b.busy[c] = what
 	}
 	b.idleMu.Unlock()
 }
@@ -383,6 +410,7 @@ func readRequest(br *bufio.Reader) (*Request, error) {
 
 func (b *Backend) serve(c net.Conn, side bool) {
 	defer c.Close()
+	defer b.setBusy(c, "")
 	br := bufio.NewReaderSize(c, 64<<10)
 	for {
 		// a connection on which no request is under way is idle: a kept-alive one between two requests, and one that
@@ -402,10 +430,12 @@ func (b *Backend) serve(c net.Conn, side bool) {
 
 func (b *Backend) serveOne(c net.Conn, br *bufio.Reader, side bool) (reuse bool) {
 	c.SetReadDeadline(time.Now().Add(30 * time.Second))
+	b.setBusy(c, fmt.Sprintf("reading a request (side=%v)", side))
 	req, err := readRequest(br)
 	if err != nil || req == nil {
 		return
 	}
+	b.setBusy(c, fmt.Sprintf("answering %s %s (side=%v)", req.Method, req.Target, side))
 	c.SetReadDeadline(time.Time{})
 	req.Conn = c
 	req.be = b
@@ -547,6 +577,7 @@ func (b *Backend) act(c net.Conn, req *Request, bh Behaviour) (reuse bool) {
 	}
 	if bh.Steps != nil {
 		for i, s := range bh.Steps {
+			b.setBusy(c, fmt.Sprintf("answering %s %s: at the gate of step %d of %d (keepalive=%v)", req.Method, req.Target, i, len(bh.Steps), bh.KeepAlive))
 			if bh.Gate != nil && !bh.Gate(req, i) {
 				b.after(c, req, bh.After)
 				return
@@ -582,6 +613,7 @@ func (b *Backend) act(c net.Conn, req *Request, bh Behaviour) (reuse bool) {
 	if bh.KeepAlive && bh.Framing != "close" && req.ReadErr == "" {
 		return true
 	}
+	b.setBusy(c, fmt.Sprintf("answering %s %s: complete, waiting for the peer to close", req.Method, req.Target))
 	// graceful close: wait for the peer to finish reading (half-close), so that a complete
 	// response is never turned into a reset by unread request bytes
 	if tc, ok := c.(*net.TCPConn); ok {
@@ -593,6 +625,7 @@ func (b *Backend) act(c net.Conn, req *Request, bh Behaviour) (reuse bool) {
 }
 
 func (b *Backend) after(c net.Conn, req *Request, how string) {
+	b.setBusy(c, fmt.Sprintf("answering %s %s: after-action %q", req.Method, req.Target, how))
 	if d := req.delayBeforeAfter; d > 0 {
 		time.Sleep(d)
 	}
